@@ -85,6 +85,7 @@ def run(ctx):
     ctx.coverage["rule"] = ("corpus structures and their perturbations (as C03), every model of a multi-model file, all four interaction kinds. "
                             "Non-trivial = the annotation is non-empty; distinct by (structure, perturbation, model).")
     n_inter = 0
+    corr_expr, corr_exp, corr_case = [], [], []
     for name, kind, s3 in annot.structures(ctx, big=True):
         try:
             pairs, bphs, brs, sts, o1, o2, raw = annot.annotate(s3)
@@ -97,6 +98,9 @@ def run(ctx):
         why = check_lists(s3, raw, s3.residues[0].model if s3.residues else 1)
         if why:
             ctx.violation(why, {"structure": name, "perturbation": kind, "base_pairs": pairs[:10], "base_phosphate": bphs[:10], "base_ribose": brs[:10]})
+        corr_expr.append(f"run_backbone_contacts {annot.res_lit(s3)} {annot.order_lit(o1)}")
+        corr_exp.append([False, bphs, brs])
+        corr_case.append({"structure": name, "perturbation": kind, "base_phosphate": bphs, "base_ribose": brs})
         if len(ctx.coverage["samples"]) < 2:
             ctx.sample({"structure": name, "perturbation": kind, "base_pairs": pairs[:4], "stackings": sts[:4], "base_phosphate": bphs[:4], "base_ribose": brs[:4]})
     # every model of an NMR ensemble
@@ -116,3 +120,16 @@ def run(ctx):
             if why:
                 ctx.violation(why, {"structure": fname, "model": m})
     ctx.coverage["interactions_checked"] = n_inter
+    if not ctx.model_ok:
+        return
+    bad, err = ctx.coq_mismatches("corr", IMPORTS, corr_expr, corr_exp, shard=1, timeout=1500)
+    if err:
+        ctx.violation("correspondence cases failed to evaluate", {"error": err}, has_input=False)
+    if bad:
+        shown = ctx.coq_show(IMPORTS, [corr_expr[i] for i in bad])
+        for k, i in enumerate(bad):
+            if k < len(shown) and shown[k].startswith("VL [VZ 1"):
+                continue      # a decision inside the undecided band
+            ctx.violation("base-phosphate / base-ribose classes differ from the model (class ladder, merge rules 3+5->4 and 7+9->8, one class per residue pair)",
+                          {"case": corr_case[i], "model": shown[k][:1200] if k < len(shown) else None, "correspondence": "Run.RGeo.run_backbone_contacts"})
+    ctx.coverage["structures_compared_with_model"] = len(corr_expr)
